@@ -334,18 +334,108 @@ Proof.
   - inversion H; subst. apply (R3 []). rewrite app_nil_r. auto.
 Qed.
 
+(* ---------------------------------------------------------------- calls nested to any depth (recursion) *)
+(* induction principle for the nested inductive rstmt *)
+Section RstmtInd.
+  Context (P : rstmt -> Prop).
+  Context (HS : forall s, P (RS s)).
+  Context (HC : forall ps body ret, Forall P body -> P (RCall ps body ret)).
+  Context (HD : forall s, P (RDecl s)).
+  Fixpoint rstmt_induction (s : rstmt) : P s :=
+    match s with
+    | RS s' => HS s'
+    | RCall ps body ret =>
+        HC ps body ret
+           ((fix go (l : list rstmt) : Forall P l :=
+               match l with
+               | [] => Forall_nil P
+               | x :: l' => Forall_cons x (rstmt_induction x) (go l')
+               end) body)
+    | RDecl s' => HD s'
+    end.
+End RstmtInd.
+
+Lemma finish_call_frame : forall h2 fr0 fr th0 thn out fp ret h' out' fp' d,
+  finish_call h2 fr0 fr th0 thn out fp ret = Some (h', out', fp') ->
+  (forall w, In w fp' -> overlap w d = false) ->
+  (fst d < length h2 -> hread h' d = hread h2 d) /\ length h2 <= length h' /\
+  (forall w, In w fp -> In w fp').
+Proof.
+  unfold finish_call; intros h2 fr0 fr th0 thn out fp ret h' out' fp' d H F.
+  destruct (match ret with Some (e, _) => eval h2 fr e | None => Some (VInt 0) end) as [rv|]; try discriminate.
+  destruct (copy_back h2 thn) as [[h3 fb]|] eqn:C; try discriminate.
+  pose proof (copy_back_length _ _ _ _ C) as L3.
+  destruct ret as [[e [dd|]]|].
+  - destruct (resolve h3 fr0 dd); try discriminate. destruct (hwrite_t h3 th0 c rv) eqn:W; try discriminate.
+    inversion H; subst. repeat split.
+    + intros LT. rewrite (hwrite_t_frame _ _ _ _ _ d W).
+      * eapply copy_back_frame; eauto. intros; apply F. apply in_or_app; right. apply in_or_app; auto.
+      * intros. apply F. apply in_or_app; right. apply in_or_app; auto.
+    + rewrite (hwrite_t_length _ _ _ _ _ W). lia.
+    + intros; apply in_or_app; auto.
+  - inversion H; subst. repeat split.
+    + intros LT. assert (X : fst d < length h3) by (rewrite L3; exact LT).
+      rewrite (hread_alloc _ _ _ X). eapply copy_back_frame; eauto. intros; apply F. apply in_or_app; auto.
+    + rewrite app_length; simpl; lia.
+    + intros; apply in_or_app; auto.
+  - inversion H; subst. repeat split.
+    + intros LT. eapply copy_back_frame; eauto. intros; apply F. apply in_or_app; auto.
+    + lia.
+    + intros; apply in_or_app; auto.
+Qed.
+
+Lemma exec_seq_frame : forall (A : Type) (f : heap -> A -> option res) ss d,
+  Forall (fun s => forall h h' out fp, f h s = Some (h', out, fp) -> fst d < length h ->
+                   (forall w, In w fp -> overlap w d = false) -> hread h' d = hread h d /\ length h <= length h') ss ->
+  forall h h' out fp, exec_seq f h ss = Some (h', out, fp) -> fst d < length h ->
+  (forall w, In w fp -> overlap w d = false) -> hread h' d = hread h d /\ length h <= length h'.
+Proof.
+  intros A f ss d HF. induction HF as [|s ss Hs HF IH]; simpl; intros h h' out fp H L F.
+  - inversion H; auto.
+  - destruct (f h s) as [[[h1 o1] f1]|] eqn:E; try discriminate.
+    destruct (exec_seq f h1 ss) as [[[h2 o2] f2]|] eqn:E2; try discriminate.
+    inversion H; subst.
+    destruct (Hs _ _ _ _ E L) as [A1 A2]. { intros; apply F; apply in_or_app; auto. }
+    destruct (IH _ _ _ _ E2) as [B1 B2]; try lia. { intros; apply F; apply in_or_app; auto. }
+    split; [congruence | lia].
+Qed.
+
+Lemma exec_rstmt_frame : forall s mech h fr th h' out fp d,
+  exec_rstmt mech h fr th s = Some (h', out, fp) -> fst d < length h ->
+  (forall w, In w fp -> overlap w d = false) ->
+  hread h' d = hread h d /\ length h <= length h'.
+Proof.
+  intros s. induction s as [s|ps body ret IH|s] using rstmt_induction; intros mech h fr th h' out fp d H L F.
+  3:{ simpl in H. destruct (eval h fr s); try discriminate. inversion H; subst. split.
+      apply hread_alloc; auto. rewrite app_length; lia. }
+  - simpl in H. split. eapply exec_sop_frame; eauto. rewrite (exec_sop_length _ _ _ _ _ _ _ H). lia.
+  - simpl in H.
+    destruct (bind_in mech h fr ps [] []) as [[[h1 fr1] thn]|] eqn:B; try discriminate.
+    destruct (exec_seq (fun h'0 s' => exec_rstmt mech h'0 fr1 (thn ++ th) s') h1 body) as [[[h2 o2] f2]|] eqn:E;
+      try discriminate.
+    pose proof (bind_in_length _ _ _ _ _ _ _ _ _ B) as L1.
+    destruct (finish_call_frame _ _ _ _ _ _ _ _ _ _ _ d H F) as [A1 [A2 A3]].
+    assert (E' : hread h2 d = hread h1 d /\ length h1 <= length h2).
+    { eapply (exec_seq_frame _ _ body d); [| exact E | lia | intros; apply F; auto].
+      eapply Forall_impl; [|exact IH]. intros s0 Hs h0 h0' out0 fp0 X Y Z. eapply Hs; eauto. }
+    destruct E' as [E1 E2].
+    split; [|lia].
+    rewrite A1; [|eapply Nat.lt_le_trans; [exact L | lia]]. rewrite E1. eapply bind_in_frame; eauto.
+Qed.
+
 Lemma exec_op_frame : forall mech h o h' out fp d,
   exec_op mech h o = Some (h', out, fp) -> fst d < length h ->
   (forall w, In w fp -> overlap w d = false) ->
   hread h' d = hread h d /\ length h <= length h'.
 Proof.
-  intros mech h o h' out fp d H L F. destruct o; simpl in H.
+  intros mech h o h' out fp d H L F. destruct o; [simpl in H .. | unfold exec_op in H].
   - split. eapply exec_sop_frame; eauto. rewrite (exec_sop_length _ _ _ _ _ _ _ H). lia.
   - inversion H; subst. split. apply hread_alloc; auto. rewrite app_length; lia.
   - destruct (eval h [] s); try discriminate. inversion H; subst. split.
     apply hread_alloc; auto. rewrite app_length; lia.
   - eapply exec_call_frame; eauto.
   - eapply exec_call2_frame; eauto.
+  - eapply exec_rstmt_frame; eauto.
 Qed.
 
 (* a history changes only the cells in its footprint (for both calling conventions) *)
@@ -429,6 +519,7 @@ Definition writes_avoid (l : loc) (os : list op) : Prop :=
                    | ODecl _ => True
                    | OCall _ _ _ => False
                    | OCall2 _ _ _ => False
+                   | OCallR _ _ _ => False
                    end) os.
 
 Lemma resolve_root : forall h fr a r c, root_of a = Some r -> resolve h fr a = Some c -> fst c = r.
